@@ -1,6 +1,340 @@
-//! C01 — not built yet.
+//! C01 — a holder commitment is revoked only after its successor is counter-signed.
+//!
+//! One correspondence group shared with C02/C03 (`EnfGroup`, different op mixes and corpora): a real
+//! `Node` + channel (stub → ready) with a real persister, real counterparty signatures, the channel
+//! entry points (phase 1 and phase 2) and the real protocol handler for the version composites,
+//! compared line by line with `vlsmodel enforcement`.  The monitors (ghost ledgers in
+//! `c01_world.rs`) evaluate the three properties on the implementation trace alone.
 use crate::common::*;
+#[path = "c01_world.rs"]
+pub mod world;
+use world::*;
+
+pub struct EnfGroup {
+    pub prop: &'static str,
+}
+
+fn u64_edge(rng: &mut Rng) -> u64 {
+    *rng.pick(&[u64::MAX, u64::MAX - 1, u64::MAX - 2, INITIAL, INITIAL + 1, INITIAL - 1, 1u64 << 63])
+}
+
+/// number near `base`: mostly exact, else base-2..base+2, rarely a u64 extreme
+fn near(rng: &mut Rng, base: u64) -> u64 {
+    let r = rng.below(100);
+    if r < 55 {
+        base
+    } else if r < 96 {
+        let d = rng.below(5) as i64 - 2;
+        if d < 0 { base.saturating_sub((-d) as u64) } else { base + d as u64 }
+    } else {
+        u64_edge(rng)
+    }
+}
+
+impl EnfGroup {
+    fn weights(&self) -> Vec<(&'static str, u64)> {
+        // (op kind, weight)
+        match self.prop {
+            "C01" => vec![
+                ("validate", 26), ("revoke", 16), ("activate", 5), ("getpoint", 4), ("getsecret", 8), ("getsecretnone", 5),
+                ("signholder", 2), ("signrecovery", 1), ("signredundant", 2), ("mutualclose", 1), ("signcp", 6), ("revokecp", 4),
+                ("restart", 6), ("hvalidate", 8), ("hrevoke", 5), ("hgetpoint", 5), ("hgetpoint2", 1),
+            ],
+            "C02" => vec![
+                ("validate", 24), ("revoke", 16), ("activate", 5), ("getpoint", 1), ("getsecret", 8), ("getsecretnone", 4),
+                ("signholder", 8), ("signrecovery", 5), ("signredundant", 8), ("mutualclose", 4), ("signcp", 5), ("revokecp", 2),
+                ("restart", 6), ("hvalidate", 5), ("hrevoke", 4), ("hgetpoint", 3),
+            ],
+            _ => vec![
+                ("validate", 6), ("revoke", 4), ("activate", 2), ("getsecret", 1), ("signholder", 1), ("mutualclose", 1),
+                ("signcp", 38), ("revokecp", 36), ("restart", 6), ("hvalidate", 1),
+            ],
+        }
+    }
+
+    fn pick_kind(&self, rng: &mut Rng) -> &'static str {
+        let w = self.weights();
+        let total: u64 = w.iter().map(|x| x.1).sum();
+        let mut r = rng.below(total);
+        for (k, x) in w {
+            if r < x {
+                return k;
+            }
+            r -= x;
+        }
+        "validate"
+    }
+
+    fn gen_op(&self, rng: &mut Rng, w: &World) -> String {
+        let e = w.estate();
+        let (next, cc, cr, cur_c, cpt, cci) = match &e {
+            Some(e) => (
+                e.next_holder_commit_num,
+                e.next_counterparty_commit_num,
+                e.next_counterparty_revoke_num,
+                e.current_holder_commit_info.as_ref().map(|i| i.to_broadcaster_value_sat),
+                e.current_counterparty_point,
+                e.current_counterparty_commit_info.as_ref().map(|i| i.to_countersigner_value_sat),
+            ),
+            None => (0, 0, 0, None, None, None),
+        };
+        let content_pick = |rng: &mut Rng| -> u64 { if rng.chance(1, 12) { 9 } else { rng.below(4) } };
+        let kind = self.pick_kind(rng);
+        match kind {
+            "validate" | "hvalidate" => {
+                // steer towards progress: usually the next number with valid signatures
+                let base = if rng.chance(1, 8) { next.saturating_sub(1) } else { next };
+                let n = near(rng, base);
+                let mut c = content_pick(rng);
+                if n.checked_add(1) == Some(next) && rng.chance(3, 4) {
+                    // retry of the current commitment: mostly the same content
+                    if let Some(v) = cur_c {
+                        for k in 0..4 {
+                            if content(k).0 == v {
+                                c = k;
+                            }
+                        }
+                    }
+                }
+                let s = if rng.chance(1, 7) { 0 } else { 1 };
+                let p = if content_policy_ok(c) { 1 } else { 0 };
+                if kind == "validate" {
+                    format!("validate {} {} {} {} {}", n, c, s, p, rng.range(1, 2))
+                } else {
+                    format!("hvalidate {} {} {} {} {}", rng.range(4, 6), n, c, s, p)
+                }
+            }
+            "revoke" => format!("revoke {}", near(rng, next)),
+            "hrevoke" => format!("hrevoke {} {}", rng.range(4, 6), near(rng, next.saturating_sub(1))),
+            "activate" => "activate".into(),
+            "getpoint" => format!("getpoint {}", near(rng, next + 1)),
+            "hgetpoint" => format!("hgetpoint {} {}", rng.range(4, 6), near(rng, next + 1)),
+            "hgetpoint2" => format!("hgetpoint2 {}", near(rng, next + 1)),
+            "getsecret" => format!("getsecret {}", near(rng, next.saturating_sub(2))),
+            "getsecretnone" => format!("getsecretnone {}", near(rng, next.saturating_sub(2))),
+            "signholder" => format!("signholder {}", near(rng, next.saturating_sub(1))),
+            "signrecovery" => "signrecovery".into(),
+            "signredundant" => {
+                let base = if rng.chance(1, 2) { next.saturating_sub(1) } else { next };
+                let n = near(rng, base);
+                let mut c = content_pick(rng);
+                if n.checked_add(1) == Some(next) && rng.chance(3, 4) {
+                    if let Some(v) = cur_c {
+                        for k in 0..4 {
+                            if content(k).0 == v {
+                                c = k;
+                            }
+                        }
+                    }
+                }
+                format!("signredundant {} {} {}", n, c, if content_policy_ok(c) { 1 } else { 0 })
+            }
+            "mutualclose" => format!("mutualclose {} 2", if rng.chance(4, 5) { 1 } else { 0 }),
+            "signcp" => {
+                let base = if rng.chance(1, 6) { cc.saturating_sub(1) } else { cc };
+                let n = near(rng, base);
+                let retry = n.checked_add(1) == Some(cc);
+                // point: for a fresh number mostly the seeded point of n, sometimes an unrelated one;
+                // for a retry mostly the point that was signed, sometimes a changed one
+                let signed = w.mon.cp_signed.get(&n).copied();
+                let (ptid, c) = match (retry, signed, cpt, cci) {
+                    (true, Some((p0, c0)), Some(_), Some(_)) if rng.chance(3, 4) => (p0, c0),
+                    _ => {
+                        let kind = if rng.chance(1, 5) { 1 } else { 0 };
+                        let src = if rng.chance(1, 10) { n.wrapping_add(1) % 90_000 } else { n % 90_000 };
+                        (cp_point_id(src, kind), content_pick(rng))
+                    }
+                };
+                format!("signcp {} {} {} {} {}", n, ptid, c, if content_policy_ok(c) { 1 } else { 0 }, rng.range(1, 2))
+            }
+            "revokecp" => {
+                let base = if rng.chance(1, 6) { cr.saturating_sub(1) } else { cr };
+                let n = near(rng, base);
+                let signed = w.mon.cp_signed.get(&n).copied();
+                let r = rng.below(100);
+                let (src_n, kind) = if r < 70 {
+                    // the secret of the point that was signed for n (or the seeded one)
+                    match signed {
+                        Some((p0, _)) => ((p0 - 1000) / 4, (p0 - 1000) % 4),
+                        None => (n % 90_000, 0),
+                    }
+                } else if r < 80 {
+                    (n.wrapping_add(1) % 90_000, 0) // future secret
+                } else if r < 90 {
+                    (n.saturating_sub(1) % 90_000, 0) // stale secret
+                } else {
+                    (n % 90_000, 1 - signed.map(|(p0, _)| (p0 - 1000) % 4).unwrap_or(0).min(1)) // other kind
+                };
+                match &w.cp_keys {
+                    Some(k) => format!("revokecp {} {} {}", n, hex::encode(cp_secret(k, src_n, kind)), cp_point_id(src_n, kind)),
+                    None => format!("revokecp {} {} {}", n, hex::encode([0x22u8; 32]), 999_999),
+                }
+            }
+            "restart" => "restart".into(),
+            _ => "getpoint 0".into(),
+        }
+    }
+}
+
+impl Group for EnfGroup {
+    fn property(&self) -> &'static str {
+        self.prop
+    }
+    fn model(&self) -> Option<&'static str> {
+        Some("enforcement")
+    }
+    fn rule(&self) -> &'static str {
+        "enforcement: real Node + channel (stub, then setup_channel) behind KVVPersister<MemoryKVVStore>; requests \
+         validate (phase 1/2, genuine or non-verifying counterparty signature, 5 contents incl. a policy-violating one), \
+         revoke, activate, get point/secret/secret-or-none, sign holder (phase2/recovery/redundant), mutual close, sign \
+         counterparty commitment (phase 1/2, seeded/unrelated/changed points), counterparty revocation (right/stale/future/\
+         unrelated secrets), handler composites ValidateCommitmentTx2/RevokeCommitmentTx/GetPerCommitmentPoint(2) at protocol \
+         versions 4..6, restart = Node::restore_node; numbers in {counter-2..counter+2} and u64 extremes; non-trivial = \
+         at least one accepted state-changing request and at least one refusal"
+    }
+    fn budget(&self, tier: Tier) -> usize {
+        if tier == Tier::Quick { 220 } else { 4000 }
+    }
+    fn corpus(&self) -> Vec<Vec<String>> {
+        let f = |s: &str| -> Vec<String> { s.split('|').map(|x| x.trim().to_string()).collect() };
+        let mut v = vec![
+            // happy path with every disclosure route, then the u64 edge requests
+            f("getsecret 0|getsecretnone 0|hgetpoint 4 1|setup|validate 0 0 1 1 2|activate|validate 1 1 1 1 1|getsecret 0|revoke 1|getsecret 0|getsecretnone 0|getsecret 1|validate 2 2 1 1 2|hrevoke 6 1|hgetpoint 4 3|hgetpoint 4 4|restart|getsecret 1|getsecret 2|revoke 18446744073709551615|restart|getsecret 18446744073709551615|restart|getsecretnone 18446744073709551614|restart|hrevoke 6 18446744073709551614|restart|getsecret 1|getsecret 2"),
+            // F1 witness (fixed by 208b946): validate n+1, sign n, revoke n
+            f("setup|validate 0 0 1 1 2|activate|validate 1 1 1 1 2|signholder 0|revoke 1|getsecret 0|restart|revoke 1|hrevoke 6 0"),
+            // invalid signatures never open the way to a secret
+            f("setup|validate 0 0 0 1 2|activate|validate 0 0 1 1 2|activate|validate 1 1 0 1 2|revoke 1|validate 1 1 0 1 1|revoke 1|hvalidate 4 1 1 0 1|getsecret 0|validate 2 1 1 1 2|revoke 1"),
+            // old protocol: validate revokes immediately
+            f("setup|hvalidate 4 0 0 1 1|hvalidate 4 1 1 1 1|hvalidate 4 2 2 1 1|hgetpoint 4 3|hgetpoint 5 2|hgetpoint 6 3|hvalidate 5 3 0 1 1|hrevoke 5 2|hrevoke 4 2"),
+            // counterparty side: window, retry, revocation with right/wrong secret
+            f("setup|signcp 0 1000 0 1 2|signcp 0 1000 0 1 1|signcp 0 1001 0 1 2|signcp 0 1000 1 1 2|signcp 2 1008 0 1 2|signcp 1 1004 1 1 2|signcp 2 1008 0 1 2|restart|signcp 2 1008 0 1 2"),
+        ];
+        // all 6 orders of {validate n+1, sign n, revoke n} × sign variants × a restart point
+        let steps = |sign: &str| vec!["validate 1 1 1 1 2".to_string(), sign.to_string(), "revoke 1".to_string()];
+        for sign in ["signholder 0", "signrecovery", "signredundant 0 0 1", "signredundant 1 1 1", "mutualclose 1 2"] {
+            for perm in [[0, 1, 2], [0, 2, 1], [1, 0, 2], [1, 2, 0], [2, 0, 1], [2, 1, 0]] {
+                for rp in 0..3 {
+                    let st = steps(sign);
+                    let mut ops = vec!["setup".to_string(), "validate 0 0 1 1 2".into(), "activate".into(), "signcp 0 1000 0 1 2".into()];
+                    for (i, k) in perm.iter().enumerate() {
+                        if i == rp {
+                            ops.push("restart".into());
+                        }
+                        ops.push(st[*k].clone());
+                    }
+                    ops.push("getsecret 0".into());
+                    ops.push("getsecretnone 0".into());
+                    ops.push("hrevoke 6 0".into());
+                    ops.push("signholder 1".into());
+                    v.push(ops);
+                }
+            }
+        }
+        v
+    }
+    fn gen_case(&self, rng: &mut Rng, tier: Tier) -> Vec<String> {
+        let mut w = World::new();
+        let mut ops = Vec::new();
+        let len = rng.range(4, if tier == Tier::Quick { 14 } else { 32 }) as usize;
+        // a few requests against the stub in some cases, then setup
+        if rng.chance(1, 4) {
+            for _ in 0..rng.range(1, 3) {
+                let op = if w.dead { "restart".to_string() } else { self.gen_op(rng, &w) };
+                w.apply(&op);
+                ops.push(op);
+            }
+        }
+        if w.dead {
+            ops.push("restart".into());
+            w.apply("restart");
+        }
+        ops.push("setup".into());
+        w.apply("setup");
+        // usually get the channel going first (initial commitment on both sides)
+        if rng.chance(4, 5) {
+            for op in ["validate 0 0 1 1 2", "activate"] {
+                ops.push(op.into());
+                w.apply(op);
+            }
+            if rng.chance(1, 2) {
+                let op = "signcp 0 1000 0 1 2";
+                ops.push(op.into());
+                w.apply(op);
+            }
+        }
+        for _ in 0..len {
+            // steer: with some probability do the "right next thing" so that long histories advance
+            let e = w.estate().unwrap();
+            let op = if w.dead {
+                "restart".to_string()
+            } else if rng.chance(1, 4) {
+                if self.prop == "C03" {
+                    let (cc, cr) = (e.next_counterparty_commit_num, e.next_counterparty_revoke_num);
+                    if cc >= 2 && cr + 2 == cc {
+                        let (p0, _) = w.mon.cp_signed.get(&cr).copied().unwrap_or((cp_point_id(cr, 0), 0));
+                        let (sn, k) = ((p0 - 1000) / 4, (p0 - 1000) % 4);
+                        format!("revokecp {} {} {}", cr, hex::encode(cp_secret(w.cp_keys.as_ref().unwrap(), sn, k)), p0)
+                    } else {
+                        format!("signcp {} {} {} 1 {}", cc, cp_point_id(cc, 0), rng.below(4), rng.range(1, 2))
+                    }
+                } else if e.next_holder_commit_info.is_some() {
+                    if e.next_holder_commit_num == 0 { "activate".to_string() } else { format!("revoke {}", e.next_holder_commit_num) }
+                } else {
+                    format!("validate {} {} 1 1 {}", e.next_holder_commit_num, rng.below(4), rng.range(1, 2))
+                }
+            } else {
+                self.gen_op(rng, &w)
+            };
+            w.apply(&op);
+            ops.push(op);
+        }
+        ops
+    }
+    fn exec_case(&self, ops: &[String]) -> CaseOut {
+        let mut co = CaseOut::default();
+        let mut w = World::new();
+        let (mut accepted, mut refused) = (false, false);
+        for op in ops {
+            let before = w.digest();
+            let line = w.apply(op);
+            let after = w.digest();
+            if line.starts_with("ok") && before != after {
+                accepted = true;
+            }
+            if line.starts_with("err") || line.starts_with("panic") {
+                refused = true;
+            }
+            co.out.push(line);
+        }
+        let pre = format!("{}-", self.prop.to_lowercase());
+        for v in w.mon.violations.drain(..) {
+            if v.kind.starts_with(&pre) {
+                co.violations.push(v);
+            }
+        }
+        co.tags = w.tags.clone();
+        if let Some(e) = w.estate() {
+            if e.channel_closed && e.next_holder_commit_info.is_some() {
+                co.tags.insert("state:closed-with-pending-next".into());
+            }
+            if e.next_holder_commit_num >= 3 {
+                co.tags.insert("state:holder>=3".into());
+            }
+            if e.next_counterparty_revoke_num >= 2 {
+                co.tags.insert("state:cp-revoked>=2".into());
+            }
+            if !w.mon.revoked.is_empty() {
+                co.tags.insert("state:secret-disclosed".into());
+            }
+            if !w.mon.signed.is_empty() {
+                co.tags.insert("state:holder-signed".into());
+            }
+        }
+        co.nontrivial = accepted && refused;
+        co
+    }
+}
 
 pub fn groups() -> Vec<Box<dyn Group>> {
-    vec![]
+    vec![Box::new(EnfGroup { prop: "C01" })]
 }
